@@ -946,7 +946,7 @@ def run(ck: Check):
             drv.close()
     for sig, (size, what, rep) in sorted(R.fail.items()):
         ck.violation(sig, what, rep)
-    if (not ok or ck.mismatches) and not R.fail:
+    if (not ok or ck.mismatches) and not ck.violations:
         ck.violation("C08:unproved", "C08 theorems or the model/implementation correspondence no longer check; the Kingman oracle found no failing input",
                      {"broken_obligations": broken, "mismatches": ck.mismatches[:5]}, found_input=False)
     elif (not ok or ck.mismatches):
